@@ -717,15 +717,57 @@ def probe_calls(api, fn, base, obs):
     return out
 
 
-def check_probe(api, fn, label, call, check_state=True):
+NUMFIELDS = {"Angle": ("_deg", "_tol"), "Epoch": ("_jde",), "Ellipsoid": ("_a", "_f", "_omega"),
+             "Interpolation": ("_tol",), "Minor": ("_q", "_e", "_a", "_n")}
+
+
+def non_value(v, depth=0):
+    """why a value is not a proper value: a complex number, a non-finite float, or an object whose
+    numeric state is not a finite real number (None = it is a proper value)"""
+    if depth > 10: return None
+    if isinstance(v, complex): return "a complex number %r" % (v,)
+    if isinstance(v, float) and not math.isfinite(v): return "a non-finite float %r" % v
+    if isinstance(v, (list, tuple)):
+        for x in v:
+            w = non_value(x, depth + 1)
+            if w: return w
+        return None
+    if isinstance(v, dict):
+        for x in v.values():
+            w = non_value(x, depth + 1)
+            if w: return w
+        return None
+    if is_instance(v):
+        cn = type(v).__name__
+        for k, x in vars(v).items():
+            if k in NUMFIELDS.get(cn, ()):
+                if isinstance(x, bool) or not isinstance(x, (int, float)):
+                    return "a %s whose %s is %s" % (cn, k, short(snap(x), 40))
+            w = non_value(x, depth + 1)
+            if w: return "a %s holding %s" % (cn, w) if not w.startswith("a " + cn) else w
+    return None
+
+
+def check_probe(api, fn, label, call, check_state=True, shapes=None):
     """an ill-typed call must raise TypeError or ValueError"""
     o = run_call(api, call, check_state=check_state)
     out = []
     if o.setup_exc is not None: return out, "setup"
     if o.exc is None:
+        # duck-typed input that yields a proper value is not a violation; a silent NON-value is
         res = "accepted"
-        out.append(finding("accepts-ill-typed:%s:%s" % (fn.key, label.split("=")[0]), "%s with %s returns %s instead of raising TypeError/ValueError" % (
-            fn.key, label, short(snap(o.result), 50)), call))
+        why = non_value(o.result)
+        if why is None and "s" in o.env and fn.kind == "method":
+            why = non_value(o.env["s"])
+            if why: why = "its receiver left as " + why
+        if why is None and o.result is None and fn.kind != "ctor":
+            rec = (shapes or {}).get(fn.key)
+            if rec is not None and "None" not in rec and fn.key not in DOCUMENTED_NONE:
+                why = "None (no documented call of this function returns None)"
+        if why:
+            res = "non-value"
+            out.append(finding("returns-non-value:" + fn.key, "%s with %s silently returns %s instead of raising TypeError/ValueError" % (
+                fn.key, label, why), call))
     else:
         res = classify_exc(o.exc)
         if res != "ok":
@@ -895,6 +937,43 @@ def shift_negative(call):
 
 
 # ---------------------------------------------------------------------- (3) copies, (4) in-place operators
+IDENTITY_ONLY = []
+
+
+def copy_path_checks(api, recs):
+    """(3) observable independence through EVERY public path: for a copy b = Cls(a), every documented
+    method call is made on a (then on b) and the other object must keep its exact state"""
+    out, n = [], 0
+    bases = {"Angle": "Angle(-33.25)", "Epoch": "Epoch(2448976.5)",
+             "Interpolation": "Interpolation([1, 2, 3, 4], [12, 5, -8, 3])",
+             "CurveFitting": "CurveFitting([1, 2, 3, 4], [2, 4, 7, 8])"}
+    for c in recs:
+        fn = api.fns.get(c.key)
+        if fn is None or fn.kind != "method" or fn.cls not in bases: continue
+        for side in ("a", "b"):
+            code = "a = %s; b = %s(a); " % (bases[fn.cls], fn.cls) + "; ".join(
+                "%s = %s" % (v, x) for v, x in c.setup if v != "s") + ("; " if len(c.setup) > 1 else "") + \
+                re.sub(r"\bs\.", side + ".", c.call)
+            env = dict(api.ns)
+            other = "b" if side == "a" else "a"
+            try:
+                exec("a = %s; b = %s(a)" % (bases[fn.cls], fn.cls), env)
+                pre = snap(env[other])
+                for v, x in c.setup:
+                    if v != "s": env[v] = eval(x, env)
+                try:
+                    exec(re.sub(r"\bs\.", side + ".", c.call), env)
+                except Exception:
+                    pass
+                n += 1
+                if snap(env[other]) != pre:
+                    out.append(finding("shared-state:%s.copy" % fn.cls, "after b = %s(a), %s.%s(...) changes %s: %s -> %s" % (
+                        fn.cls, side, fn.name, other, short(pre), short(snap(env[other]))), Call("", [], code + "; r = " + other, [])))
+            except Exception:
+                continue
+    return out, n
+
+
 def sharing_checks(api, rng):
     """copy constructors and list inputs: observable independence, then structural sharing.
     returns (findings, number of checks)"""
@@ -984,7 +1063,9 @@ def sharing_checks(api, rng):
             out.append(fnd("shared-state:" + key, "construction raises %r" % e, code + "; r = None")); continue
         ia, ib = mutable_ids(env[sv]), mutable_ids(env[cv])
         common = [ia[k] for k in ia if k in ib]
-        if common:
+        if common and "list-input" not in key:
+            IDENTITY_ONLY.append(key)        # identity-only sharing, not observable through the public API: a statistic
+        elif common:
             out.append(fnd("shared-state:" + key + "(identity)", "%s: the new object holds %d mutable object(s) of its source by reference (e.g. %s)" % (
                 key, len(common), short(snap(common[0]), 40)), code + "; r = [k for k in vars(b) if any(vars(b)[k] is y for y in (list(vars(a).values()) if hasattr(a, '__dict__') else list(a) + [a]))]"))
     # results returned by accessor methods are not internal state
